@@ -124,6 +124,27 @@ theorem regFinish_zero (red : Reduction) (half : Bool) (pts : List (Idx D)) (ite
     obtain ⟨w, hw, rfl⟩ := hv
     rw [hz w hw, zero_mul]
 
+theorem mapM_id_isSome (l : List (Option K)) (h : ∀ x ∈ l, x.isSome) : ∃ vals, l.mapM id = some vals := by
+  induction l with
+  | nil => exact ⟨[], rfl⟩
+  | cons x l ih =>
+    obtain ⟨vals, hv⟩ := ih (fun y hy => h y (by simp [hy]))
+    have hx := h x (by simp)
+    obtain ⟨v, rfl⟩ := Option.isSome_iff_exists.mp hx
+    exact ⟨v :: vals, by rw [List.mapM_cons, hv]; rfl⟩
+
+/-- the loss has a value (no KeyError) whenever every item has a value at every output point. -/
+theorem regFinish_ok (red : Reduction) (half : Bool) (pts : List (Idx D)) (items : List (Idx D → Option K))
+    (h : ∀ f ∈ items, ∀ idx ∈ pts, (f idx).isSome) : ∃ r, regFinish red half (.batch pts items) = .ok r := by
+  unfold regFinish
+  obtain ⟨vals, hv⟩ := mapM_id_isSome (items.flatMap (fun f => pts.map f)) (by
+    intro x hx
+    obtain ⟨f, hf, hxf⟩ := List.mem_flatMap.mp hx
+    obtain ⟨idx, hidx, rfl⟩ := List.mem_map.mp hxf
+    exact h f hf idx hidx)
+  simp only [hv]
+  exact ⟨_, rfl⟩
+
 /-! ### grid points of a box -/
 
 theorem boxPoints_inBox (sz : Fin D → Nat) (hsz : ∀ d, 0 < sz d) (idx : Idx D) (h : idx ∈ boxPoints sz) :
